@@ -104,9 +104,40 @@ def kani_cmd(job, extra=()):
            "--target-dir", target_dir(job.prop),
            "--harness", job.h["name"], "--exact"]
     cmd += list(extra)
-    if job.h.get("cbmc_args"):
-        cmd += ["-Z", "unstable-options", "--cbmc-args"] + list(job.h["cbmc_args"])
+    cbmc_args = list(job.h.get("cbmc_args") or [])
+    us = job.h.get("unwindset")
+    if us:
+        ids = resolve_loops(job, us)
+        if ids:
+            cbmc_args += ["--unwindset", ",".join(f"{i}:{b}" for i, b in ids)]
+    if cbmc_args:
+        cmd += ["-Z", "unstable-options", "--cbmc-args"] + cbmc_args
     return cmd
+
+
+_LOOP_CACHE = {}
+
+
+def resolve_loops(job, patterns):
+    """Per-loop unwinding bounds by function-name substring: look the loop ids up in the harness's
+    goto binary (they are mangled names, different in every build)."""
+    import glob
+    fn = job.h["name"].split("::")[-1]
+    pat = os.path.join(target_dir(job.prop), "kani", "*", "debug", "build", "gse_verif", "*", "out", f"*{len(fn)}{fn}.out")
+    files = sorted(glob.glob(pat), key=os.path.getmtime)
+    if not files:
+        return []
+    f = files[-1]
+    if f not in _LOOP_CACHE:
+        p = subprocess.run(["goto-instrument", "--show-loops", f], stdout=subprocess.PIPE, stderr=subprocess.DEVNULL, text=True)
+        _LOOP_CACHE[f] = re.findall(r"^Loop (\S+):", p.stdout, re.M)
+    out = []
+    for lid in _LOOP_CACHE[f]:
+        for sub, bound in patterns.items():
+            if sub in lid:
+                out.append((lid, bound))
+                break
+    return out
 
 
 def run_jobs(jobs, progress=True):
